@@ -28,10 +28,14 @@ def classification : List SiteEntry := [
     "collects the keys of a set and sorts them before returning"⟩,
   ⟨"task.Compiler.getVariables", "range specialVars", .benign,
     "Sets distinct special-variable names into a map that is only consulted by key (Vars.setAll_perm)"⟩,
-  ⟨"task.Executor.compiledTask", "range envs", .benign,
-    "one dotenv file: distinct keys, set-if-absent into a map only consulted by key (Vars.setAll_perm)"⟩,
-  ⟨"taskfile.Dotenv", "range envs", .benign,
-    "one dotenv file: distinct keys, set-if-absent into a map only consulted by key (Vars.setAll_perm)"⟩,
+  ⟨"taskfile.Dotenv", "range envs", .orderSensitive,
+    "entries of one dotenv file in Go map order: the result is an ORDERED map whose values getVariables templates one after the other, each seeing the ones before it (B={{.A}}x) — the values differed from run to run (this entry was wrongly `benign` until a reviewer ran such a file; repaired by 6952eb7)"⟩,
+  ⟨"taskfile.Dotenv", "range slices.Sorted(maps.Keys(envs))", .orderSensitive,
+    "same site after 6952eb7: entries in key order"⟩,
+  ⟨"task.Executor.compiledTask", "range envs", .orderSensitive,
+    "task-level dotenv entries in Go map order: they end up, in that order, in the compiled task's ordered env map"⟩,
+  ⟨"task.Executor.compiledTask", "range slices.Sorted(maps.Keys(envs))", .orderSensitive,
+    "same site after 6952eb7: entries in key order"⟩,
   ⟨"task.itemsFromFor", "range value", .permitted,
     "for-loop over a map variable: documented as unordered, the variation the property allows"⟩,
   ⟨"taskfile/ast.TaskfileGraph.Merge", "graph.TopologicalSort", .orderSensitive,
